@@ -93,3 +93,175 @@ package annotations
 //@   props C03 C15 C10
 //@   ensures result == recvTypeName(expr)
 //@   assigns nothing
+
+// ---- C15: one comment line -> at most one annotation value per keyword --------------------------------------------
+// The recognisers are the package's regular expressions (their languages are compared with the documented grammar by
+// the check of C15, obligations relang/*); here: each parse function returns an annotation exactly when its expression
+// matches (and, where the keyword needs arguments, at least one argument is present), with exactly the matched arguments.
+//@ macro func ctorList(text string) string = strings.TrimSpace(reGroup(constructorRegex, text, 1))
+//@ macro func poList(text string) string = strings.TrimSpace(reGroup(packageOnlyRegex, text, 1))
+
+//@ func parseImmutableAnnotation
+//@   props C15 C09 C10
+//@   fresh
+//@   ensures (result != nil) == reMatches(immutableRegex, commentText)
+//@   ensures result != nil ==> result.OnType == typeName && result.OnTypePos == pos
+//@   assigns nothing
+
+//@ func parseTestOnlyAnnotation
+//@   props C15 C09 C10
+//@   fresh
+//@   ensures (result != nil) == reMatches(testonlyRegex, commentText)
+//@   ensures result != nil ==> result.Kind == kind && result.ObjectName == objectName && result.Pos == pos && result.ReceiverType == receiverType
+//@   assigns nothing
+
+//@ func parseMutableAnnotation
+//@   props C15 C09 C10
+//@   fresh
+//@   ensures (result != nil) == reMatches(mutableRegex, commentText)
+//@   ensures result != nil ==> result.OnType == typeName && result.FieldName == fieldName && result.Pos == pos
+//@   assigns nothing
+
+//@ func parseConstructorAnnotation
+//@   props C15 C09 C10
+//@   fresh
+//@   ensures (result != nil) == (reMatches(constructorRegex, commentText) && listAny(ctorList(commentText)))
+//@   ensures result != nil ==> result.OnType == typeName && result.OnTypePos == pos && (forall x string :: contains(result.ConstructorNames, x) <==> listHas(ctorList(commentText), false, x))
+//@   assigns nothing
+//@   loop 1 invariant forall x string :: contains(names, x) ==> (exists k int :: 0 <= k && k < $i && strings.TrimSpace(parts[k]) != "" && x == strings.TrimSpace(parts[k]))
+//@   loop 1 invariant forall k int :: 0 <= k && k < $i && strings.TrimSpace(parts[k]) != "" ==> contains(names, strings.TrimSpace(parts[k]))
+//@   loop 1 invariant len(names) == 0 ==> (forall k int :: 0 <= k && k < $i ==> strings.TrimSpace(parts[k]) == "")
+//@   loop 1 invariant forall j int :: 0 <= j && j < len(names) ==> (exists k int :: 0 <= k && k < $i && strings.TrimSpace(parts[k]) != "" && names[j] == strings.TrimSpace(parts[k]))
+
+//@ func parsePackageOnlyAnnotation
+//@   props C15 C09 C10
+//@   fresh
+//@   ensures (result != nil) == reMatches(packageOnlyRegex, commentText)
+//@   ensures result != nil ==> result.Kind == kind && result.ObjectName == objectName && result.Pos == pos && result.ReceiverType == receiverType
+//@   ensures result != nil ==> (forall x string :: contains(result.AllowedPackages, x) <==> (x == currentPkgPath || listHas(poList(commentText), false, x)))
+//@   assigns nothing
+//@   loop 1 invariant forall x string :: contains(allowedPackages, x) ==> x == currentPkgPath || (exists k int :: 0 <= k && k < $i && strings.TrimSpace(parts[k]) != "" && x == strings.TrimSpace(parts[k]))
+//@   loop 1 invariant contains(allowedPackages, currentPkgPath) && (forall k int :: 0 <= k && k < $i && strings.TrimSpace(parts[k]) != "" ==> contains(allowedPackages, strings.TrimSpace(parts[k])))
+
+//@ func getFuncKindAndReceiver
+//@   props C15 C03 C04 C10
+//@   ensures result0 == funcKind(funcDecl) && result1 == funcRecv(funcDecl)
+//@   assigns nothing
+//@ macro func isMethodDecl(fd *ast.FuncDecl) bool = fd.Recv != nil && len(fd.Recv.List) > 0
+//@ macro func funcKind(fd *ast.FuncDecl) TestOnlyKind = isMethodDecl(fd) ? TestOnlyOnMethod : TestOnlyOnFunc
+//@ macro func funcRecv(fd *ast.FuncDecl) string = isMethodDecl(fd) ? recvTypeName(fd.Recv.List[0].Type) : ""
+
+// @implements: pointer flag, qualifier and interface name are the three groups; the qualifier is resolved through the
+// file's imports (util.ImportMap.Find) at once
+//@ func parseImplementsAnnotation
+//@   props C15 C05 C09 C10
+//@   requires imports != nil
+//@   fresh
+//@   ensures (result != nil) == reMatches(implementsRegex, commentText)
+//@   ensures result != nil ==> implFields(*result, commentText, typeName, pos)
+//@   ensures result != nil && result.PackageName == "" ==> result.PackageFullPath == currentPkgPath && !result.PackageNotFound
+//@   ensures result != nil && result.PackageName != "" ==> result.PackageNotFound == (forall k int :: 0 <= k && k < len(*imports) ==> impRank((*imports)[k], result.PackageName) == 0)
+//@   ensures result != nil && result.PackageName != "" && result.PackageNotFound ==> result.PackageFullPath == ""
+//@   ensures result != nil && result.PackageName != "" && !result.PackageNotFound ==> (exists k int :: 0 <= k && k < len(*imports) && impRank((*imports)[k], result.PackageName) != 0 && result.PackageFullPath == (*imports)[k].FullPath)
+//@   assigns nothing
+//@ macro func implFields(a ImplementsAnnotation, text string, t string, pos token.Pos) bool = a.IsPointer == (reGroup(implementsRegex, text, 1) == "&") && a.PackageName == reGroup(implementsRegex, text, 2) && a.InterfaceName == reGroup(implementsRegex, text, 3) && a.OnType == t && a.OnTypePos == pos
+
+// ---- C15 / C09 / C14: which comment lines are read (attachment) ---------------------------------------------------------
+// Only the doc comment lines of top-level type declarations (the spec's own doc comment, else the declaration's) and of
+// top-level functions and methods, in the files kept by the configuration, are read.
+//@ macro func docOf(gd *ast.GenDecl, ts *ast.TypeSpec) *ast.CommentGroup = ts.Doc != nil ? ts.Doc : gd.Doc
+// kinds of lines: 1 @immutable, 2 @testonly, 3 @constructor (x: a listed name), 4 @packageonly (x: an allowed package,
+// cur: the package being analysed), 5 @implements (x: any line with the same pointer flag, qualifier and interface name), 6 @mutable
+//@ macro func implSame(x string, text string) bool = (reGroup(implementsRegex, x, 1) == "&") == (reGroup(implementsRegex, text, 1) == "&") && reGroup(implementsRegex, x, 2) == reGroup(implementsRegex, text, 2) && reGroup(implementsRegex, x, 3) == reGroup(implementsRegex, text, 3)
+//@ macro func lineHit(kind int, text string, x string, cur string) bool = kind == 1 ? reMatches(immutableRegex, text) : (kind == 2 ? reMatches(testonlyRegex, text) : (kind == 3 ? (reMatches(constructorRegex, text) && listHas(ctorList(text), false, x)) : (kind == 4 ? (reMatches(packageOnlyRegex, text) && (x == cur || listHas(poList(text), false, x))) : (kind == 5 ? (reMatches(implementsRegex, text) && implSame(x, text)) : (kind == 6 && reMatches(mutableRegex, text))))))
+// some line among the first n of the comment group is a line of that kind
+//@ pure func docHit(kind int, doc *ast.CommentGroup, n int, x string, cur string) bool = exists k int :: 0 <= k && k < n && k < len(doc.List) && lineHit(kind, doc.List[k].Text, x, cur)
+// some type spec among the first n of the declaration is named t, stands at p and has such a doc line
+//@ pure func specsHit(kind int, gd *ast.GenDecl, n int, t string, p token.Pos, x string, cur string) bool = exists s int :: 0 <= s && s < n && s < len(gd.Specs) && typeis(gd.Specs[s], *ast.TypeSpec) && cast(gd.Specs[s], *ast.TypeSpec).Name.Name == t && gd.Specs[s].Pos() == p && docOf(gd, cast(gd.Specs[s], *ast.TypeSpec)) != nil && docHit(kind, docOf(gd, cast(gd.Specs[s], *ast.TypeSpec)), len(docOf(gd, cast(gd.Specs[s], *ast.TypeSpec)).List), x, cur)
+//@ pure func declsHit(kind int, f *ast.File, n int, t string, p token.Pos, x string, cur string) bool = exists d int :: 0 <= d && d < n && d < len(f.Decls) && typeis(f.Decls[d], *ast.GenDecl) && cast(f.Decls[d], *ast.GenDecl).Tok == token.TYPE && specsHit(kind, cast(f.Decls[d], *ast.GenDecl), len(cast(f.Decls[d], *ast.GenDecl).Specs), t, p, x, cur)
+//@ pure func filesHit(kind int, fs []*ast.File, n int, t string, p token.Pos, x string, cur string) bool = exists f int :: 0 <= f && f < n && f < len(fs) && declsHit(kind, fs[f], len(fs[f].Decls), t, p, x, cur)
+// the same for top-level functions and methods: kind k (function / method), receiver type name as written, name, position
+//@ pure func fdeclsHit(kind int, f *ast.File, n int, k TestOnlyKind, recv string, name string, p token.Pos, x string, cur string) bool = exists d int :: 0 <= d && d < n && d < len(f.Decls) && typeis(f.Decls[d], *ast.FuncDecl) && cast(f.Decls[d], *ast.FuncDecl).Doc != nil && cast(f.Decls[d], *ast.FuncDecl).Name.Name == name && f.Decls[d].Pos() == p && funcKind(cast(f.Decls[d], *ast.FuncDecl)) == k && funcRecv(cast(f.Decls[d], *ast.FuncDecl)) == recv && docHit(kind, cast(f.Decls[d], *ast.FuncDecl).Doc, len(cast(f.Decls[d], *ast.FuncDecl).Doc.List), x, cur)
+//@ pure func ffilesHit(kind int, fs []*ast.File, n int, k TestOnlyKind, recv string, name string, p token.Pos, x string, cur string) bool = exists f int :: 0 <= f && f < n && f < len(fs) && fdeclsHit(kind, fs[f], len(fs[f].Decls), k, recv, name, p, x, cur)
+// what the result lists contain (as relations: order and duplicates do not matter to any consumer)
+//@ pure func ctorHasP(l []ConstructorAnnotation, t string, p token.Pos, x string) bool = exists i int :: 0 <= i && i < len(l) && l[i].OnType == t && l[i].OnTypePos == p && contains(l[i].ConstructorNames, x)
+//@ pure func toHasP(l []TestOnlyAnnotation, k TestOnlyKind, recv string, name string, p token.Pos) bool = exists i int :: 0 <= i && i < len(l) && l[i].Kind == k && l[i].ReceiverType == recv && l[i].ObjectName == name && l[i].Pos == p
+//@ pure func poHasP(l []PackageOnlyAnnotation, k TestOnlyKind, recv string, name string, p token.Pos, x string) bool = exists i int :: 0 <= i && i < len(l) && l[i].Kind == k && l[i].ReceiverType == recv && l[i].ObjectName == name && l[i].Pos == p && contains(l[i].AllowedPackages, x)
+//@ pure func implHasP(l []ImplementsAnnotation, t string, p token.Pos, text string) bool = exists i int :: 0 <= i && i < len(l) && implFields(l[i], text, t, p)
+// @mutable entries: field fname at position p of the @immutable struct type t (t's spec at tp)
+//@ pure func mutHasQ(l []MutableAnnotation, t string, fname string, p token.Pos) bool = exists i int :: 0 <= i && i < len(l) && l[i].OnType == t && l[i].FieldName == fname && l[i].Pos == p
+//@ pure func immHasP(l []ImmutableAnnotation, t string, p token.Pos) bool = exists i int :: 0 <= i && i < len(l) && l[i].OnType == t && l[i].OnTypePos == p
+
+// @mutable: doc comment lines of the named fields of a struct type
+//@ pure func namesHit(fd *ast.Field, n int, fname string, p token.Pos) bool = exists j int :: 0 <= j && j < n && j < len(fd.Names) && fd.Names[j].Name == fname && fd.Names[j].Pos() == p
+//@ pure func fieldsHit(st *ast.StructType, n int, fname string, p token.Pos) bool = exists q int :: 0 <= q && q < n && q < len(st.Fields.List) && st.Fields.List[q].Doc != nil && namesHit(st.Fields.List[q], len(st.Fields.List[q].Names), fname, p) && docHit(6, st.Fields.List[q].Doc, len(st.Fields.List[q].Doc.List), "", "")
+//@ macro func mutHasP(l []MutableAnnotation, t string, fname string, p token.Pos) bool = exists i int :: 0 <= i && i < len(l) && l[i].OnType == t && l[i].FieldName == fname && l[i].Pos == p
+//@ func readFieldAnnotationsForType
+//@   props C15 C09 C10
+//@   merge
+//@   assigns nothing
+//@   ensures forall i int :: 0 <= i && i < len(result) ==> result[i].OnType == typeName
+//@   ensures forall fname string, p token.Pos :: mutHasP(result, typeName, fname, p) <==> (typeis(typeSpec.Type, *ast.StructType) && fieldsHit(cast(typeSpec.Type, *ast.StructType), len(cast(typeSpec.Type, *ast.StructType).Fields.List), fname, p))
+//@   loop 1 frame
+//@   loop 2 frame
+//@   loop 3 frame
+//@   loop 1 invariant forall i int :: 0 <= i && i < len(mutables) ==> mutables[i].OnType == typeName
+//@   loop 2 invariant forall i int :: 0 <= i && i < len(mutables) ==> mutables[i].OnType == typeName
+//@   loop 3 invariant forall i int :: 0 <= i && i < len(mutables) ==> mutables[i].OnType == typeName
+//@   loop 1 invariant forall fname string, p token.Pos :: mutHasP(mutables, typeName, fname, p) <==> fieldsHit(structType, $i, fname, p)
+//@   loop 2 invariant forall fname string, p token.Pos :: mutHasP(mutables, typeName, fname, p) <==> (fieldsHit(structType, $i1, fname, p) || (namesHit(field, $i, fname, p) && docHit(6, field.Doc, len(field.Doc.List), "", "")))
+//@   loop 3 invariant forall fname string, p token.Pos :: mutHasP(mutables, typeName, fname, p) <==> (fieldsHit(structType, $i1, fname, p) || (namesHit(field, $i2, fname, p) && docHit(6, field.Doc, len(field.Doc.List), "", "")) || (fname == fieldName.Name && p == pos && docHit(6, field.Doc, $i, "", "")))
+
+// Pre-filters never hide a match (ASSUMED here; discharged as language inclusions by the check of C15, obligations
+// relang/annotations.*Regex/prefilter; the last is the ahocorasick contract for the dictionary of the six keywords).
+//@ axiom ann_prefilter_immutable: forall s string {reMatches(immutableRegex, s)} :: reMatches(immutableRegex, s) ==> strings.Contains(s, "@immutable")
+//@ axiom ann_prefilter_testonly: forall s string {reMatches(testonlyRegex, s)} :: reMatches(testonlyRegex, s) ==> strings.Contains(s, "@testonly")
+//@ axiom ann_prefilter_mutable: forall s string {reMatches(mutableRegex, s)} :: reMatches(mutableRegex, s) ==> strings.Contains(s, "@mutable")
+//@ axiom ann_prefilter_constructor: forall s string {reMatches(constructorRegex, s)} :: reMatches(constructorRegex, s) ==> strings.Contains(s, "@constructor")
+//@ axiom ann_prefilter_packageonly: forall s string {reMatches(packageOnlyRegex, s)} :: reMatches(packageOnlyRegex, s) ==> strings.Contains(s, "@packageonly")
+//@ axiom ann_prefilter_implements: forall s string {reMatches(implementsRegex, s)} :: reMatches(implementsRegex, s) ==> strings.Contains(s, "@implements")
+//@ axiom ann_prefilter_matcher: forall s string {matcher.Contains(bytes(s))} :: matcher.Contains(bytes(s)) == (strings.Contains(s, "@implements") || strings.Contains(s, "@constructor") || strings.Contains(s, "@immutable") || strings.Contains(s, "@testonly") || strings.Contains(s, "@mutable") || strings.Contains(s, "@packageonly"))
+//@ axiom ann_matcher_built: matcher != nil
+
+//@ func ReadAllAnnotations
+//@   props C15 C09 C14 C06 C10
+//@   merge
+//@   requires cfg != nil && pass.Pkg != nil && pass.TypesInfo != nil
+//@   assigns nothing
+//@   let cur = pass.Pkg.Path()
+//@   ensures forall t string, p token.Pos :: immHasP(result.ImmutableAnnotations, t, p) <==> (exists f *ast.File :: contains(pass.Files, f) && !skipFile(cfg, pass, f) && declsHit(1, f, len(f.Decls), t, p, "", cur))
+//@   ensures forall t string, p token.Pos, x string :: ctorHasP(result.ConstructorAnnotations, t, p, x) <==> (exists f *ast.File :: contains(pass.Files, f) && !skipFile(cfg, pass, f) && declsHit(3, f, len(f.Decls), t, p, x, cur))
+//@   ensures forall t string, p token.Pos, x string :: implHasP(result.ImplementsAnnotations, t, p, x) <==> (exists f *ast.File :: contains(pass.Files, f) && !skipFile(cfg, pass, f) && declsHit(5, f, len(f.Decls), t, p, x, cur))
+//@   ensures forall k TestOnlyKind, recv string, name string, p token.Pos :: toHasP(result.TestonlyAnnotations, k, recv, name, p) <==> (exists f *ast.File :: contains(pass.Files, f) && !skipFile(cfg, pass, f) && ((k == TestOnlyOnType && recv == "" && declsHit(2, f, len(f.Decls), name, p, "", cur)) || fdeclsHit(2, f, len(f.Decls), k, recv, name, p, "", cur)))
+//@   ensures forall k TestOnlyKind, recv string, name string, p token.Pos, x string :: poHasP(result.PackageOnlyAnnotations, k, recv, name, p, x) <==> (exists f *ast.File :: contains(pass.Files, f) && !skipFile(cfg, pass, f) && ((k == TestOnlyOnType && recv == "" && declsHit(4, f, len(f.Decls), name, p, x, cur)) || fdeclsHit(4, f, len(f.Decls), k, recv, name, p, x, cur)))
+//@   loop 1 frame
+//@   loop 2 frame
+//@   loop 3 frame
+//@   loop 4 frame
+//@   loop 5 frame
+//@   loop 6 frame
+//@   loop 7 frame
+//@   loop 1 invariant forall t string, p token.Pos :: immHasP(immutables, t, p) <==> filesHit(1, $seq, $i, t, p, "", currentPkgPath)
+//@   loop 3 invariant forall t string, p token.Pos :: immHasP(immutables, t, p) <==> (filesHit(1, $seq1, $i1, t, p, "", currentPkgPath) || declsHit(1, file, $i, t, p, "", currentPkgPath))
+//@   loop 4 invariant forall t string, p token.Pos :: immHasP(immutables, t, p) <==> (filesHit(1, $seq1, $i1, t, p, "", currentPkgPath) || declsHit(1, file, $i3, t, p, "", currentPkgPath) || specsHit(1, genDecl, $i, t, p, "", currentPkgPath))
+//@   loop 5 invariant forall t string, p token.Pos :: immHasP(immutables, t, p) <==> (filesHit(1, $seq1, $i1, t, p, "", currentPkgPath) || declsHit(1, file, $i3, t, p, "", currentPkgPath) || specsHit(1, genDecl, $i4, t, p, "", currentPkgPath) || (t == typeName && p == pos && docHit(1, doc, $i, "", currentPkgPath)))
+//@   loop 1 invariant forall t string, p token.Pos, x string :: ctorHasP(constructors, t, p, x) <==> filesHit(3, $seq, $i, t, p, x, currentPkgPath)
+//@   loop 3 invariant forall t string, p token.Pos, x string :: ctorHasP(constructors, t, p, x) <==> (filesHit(3, $seq1, $i1, t, p, x, currentPkgPath) || declsHit(3, file, $i, t, p, x, currentPkgPath))
+//@   loop 4 invariant forall t string, p token.Pos, x string :: ctorHasP(constructors, t, p, x) <==> (filesHit(3, $seq1, $i1, t, p, x, currentPkgPath) || declsHit(3, file, $i3, t, p, x, currentPkgPath) || specsHit(3, genDecl, $i, t, p, x, currentPkgPath))
+//@   loop 5 invariant forall t string, p token.Pos, x string :: ctorHasP(constructors, t, p, x) <==> (filesHit(3, $seq1, $i1, t, p, x, currentPkgPath) || declsHit(3, file, $i3, t, p, x, currentPkgPath) || specsHit(3, genDecl, $i4, t, p, x, currentPkgPath) || (t == typeName && p == pos && docHit(3, doc, $i, x, currentPkgPath)))
+//@   loop 1 invariant forall t string, p token.Pos, x string :: implHasP(implements, t, p, x) <==> filesHit(5, $seq, $i, t, p, x, currentPkgPath)
+//@   loop 3 invariant forall t string, p token.Pos, x string :: implHasP(implements, t, p, x) <==> (filesHit(5, $seq1, $i1, t, p, x, currentPkgPath) || declsHit(5, file, $i, t, p, x, currentPkgPath))
+//@   loop 4 invariant forall t string, p token.Pos, x string :: implHasP(implements, t, p, x) <==> (filesHit(5, $seq1, $i1, t, p, x, currentPkgPath) || declsHit(5, file, $i3, t, p, x, currentPkgPath) || specsHit(5, genDecl, $i, t, p, x, currentPkgPath))
+//@   loop 5 invariant forall t string, p token.Pos, x string :: implHasP(implements, t, p, x) <==> (filesHit(5, $seq1, $i1, t, p, x, currentPkgPath) || declsHit(5, file, $i3, t, p, x, currentPkgPath) || specsHit(5, genDecl, $i4, t, p, x, currentPkgPath) || (t == typeName && p == pos && docHit(5, doc, $i, x, currentPkgPath)))
+//@   loop 1 invariant forall k TestOnlyKind, recv string, name string, p token.Pos :: toHasP(testonly, k, recv, name, p) <==> ((k == TestOnlyOnType && recv == "" && filesHit(2, $seq, $i, name, p, "", currentPkgPath)) || ffilesHit(2, $seq, $i, k, recv, name, p, "", currentPkgPath))
+//@   loop 3 invariant forall k TestOnlyKind, recv string, name string, p token.Pos :: toHasP(testonly, k, recv, name, p) <==> ((k == TestOnlyOnType && recv == "" && filesHit(2, $seq1, $i1, name, p, "", currentPkgPath)) || ffilesHit(2, $seq1, $i1, k, recv, name, p, "", currentPkgPath) || (k == TestOnlyOnType && recv == "" && declsHit(2, file, $i, name, p, "", currentPkgPath)))
+//@   loop 4 invariant forall k TestOnlyKind, recv string, name string, p token.Pos :: toHasP(testonly, k, recv, name, p) <==> ((k == TestOnlyOnType && recv == "" && filesHit(2, $seq1, $i1, name, p, "", currentPkgPath)) || ffilesHit(2, $seq1, $i1, k, recv, name, p, "", currentPkgPath) || (k == TestOnlyOnType && recv == "" && declsHit(2, file, $i3, name, p, "", currentPkgPath)) || (k == TestOnlyOnType && recv == "" && specsHit(2, genDecl, $i, name, p, "", currentPkgPath)))
+//@   loop 5 invariant forall k TestOnlyKind, recv string, name string, p token.Pos :: toHasP(testonly, k, recv, name, p) <==> ((k == TestOnlyOnType && recv == "" && filesHit(2, $seq1, $i1, name, p, "", currentPkgPath)) || ffilesHit(2, $seq1, $i1, k, recv, name, p, "", currentPkgPath) || (k == TestOnlyOnType && recv == "" && declsHit(2, file, $i3, name, p, "", currentPkgPath)) || (k == TestOnlyOnType && recv == "" && specsHit(2, genDecl, $i4, name, p, "", currentPkgPath)) || (k == TestOnlyOnType && recv == "" && name == typeName && p == pos && docHit(2, doc, $i, "", currentPkgPath)))
+//@   loop 6 invariant forall k TestOnlyKind, recv string, name string, p token.Pos :: toHasP(testonly, k, recv, name, p) <==> ((k == TestOnlyOnType && recv == "" && filesHit(2, $seq1, $i1, name, p, "", currentPkgPath)) || ffilesHit(2, $seq1, $i1, k, recv, name, p, "", currentPkgPath) || (k == TestOnlyOnType && recv == "" && declsHit(2, file, len(file.Decls), name, p, "", currentPkgPath)) || fdeclsHit(2, file, $i, k, recv, name, p, "", currentPkgPath))
+//@   loop 7 invariant forall k TestOnlyKind, recv string, name string, p token.Pos :: toHasP(testonly, k, recv, name, p) <==> ((k == TestOnlyOnType && recv == "" && filesHit(2, $seq1, $i1, name, p, "", currentPkgPath)) || ffilesHit(2, $seq1, $i1, k, recv, name, p, "", currentPkgPath) || (k == TestOnlyOnType && recv == "" && declsHit(2, file, len(file.Decls), name, p, "", currentPkgPath)) || fdeclsHit(2, file, $i6, k, recv, name, p, "", currentPkgPath) || (k == kind && recv == receiverType && name == funcName && p == pos && docHit(2, funcDecl.Doc, $i, "", currentPkgPath)))
+//@   loop 1 invariant forall k TestOnlyKind, recv string, name string, p token.Pos, x string :: poHasP(packageonly, k, recv, name, p, x) <==> ((k == TestOnlyOnType && recv == "" && filesHit(4, $seq, $i, name, p, x, currentPkgPath)) || ffilesHit(4, $seq, $i, k, recv, name, p, x, currentPkgPath))
+//@   loop 3 invariant forall k TestOnlyKind, recv string, name string, p token.Pos, x string :: poHasP(packageonly, k, recv, name, p, x) <==> ((k == TestOnlyOnType && recv == "" && filesHit(4, $seq1, $i1, name, p, x, currentPkgPath)) || ffilesHit(4, $seq1, $i1, k, recv, name, p, x, currentPkgPath) || (k == TestOnlyOnType && recv == "" && declsHit(4, file, $i, name, p, x, currentPkgPath)))
+//@   loop 4 invariant forall k TestOnlyKind, recv string, name string, p token.Pos, x string :: poHasP(packageonly, k, recv, name, p, x) <==> ((k == TestOnlyOnType && recv == "" && filesHit(4, $seq1, $i1, name, p, x, currentPkgPath)) || ffilesHit(4, $seq1, $i1, k, recv, name, p, x, currentPkgPath) || (k == TestOnlyOnType && recv == "" && declsHit(4, file, $i3, name, p, x, currentPkgPath)) || (k == TestOnlyOnType && recv == "" && specsHit(4, genDecl, $i, name, p, x, currentPkgPath)))
+//@   loop 5 invariant forall k TestOnlyKind, recv string, name string, p token.Pos, x string :: poHasP(packageonly, k, recv, name, p, x) <==> ((k == TestOnlyOnType && recv == "" && filesHit(4, $seq1, $i1, name, p, x, currentPkgPath)) || ffilesHit(4, $seq1, $i1, k, recv, name, p, x, currentPkgPath) || (k == TestOnlyOnType && recv == "" && declsHit(4, file, $i3, name, p, x, currentPkgPath)) || (k == TestOnlyOnType && recv == "" && specsHit(4, genDecl, $i4, name, p, x, currentPkgPath)) || (k == TestOnlyOnType && recv == "" && name == typeName && p == pos && docHit(4, doc, $i, x, currentPkgPath)))
+//@   loop 6 invariant forall k TestOnlyKind, recv string, name string, p token.Pos, x string :: poHasP(packageonly, k, recv, name, p, x) <==> ((k == TestOnlyOnType && recv == "" && filesHit(4, $seq1, $i1, name, p, x, currentPkgPath)) || ffilesHit(4, $seq1, $i1, k, recv, name, p, x, currentPkgPath) || (k == TestOnlyOnType && recv == "" && declsHit(4, file, len(file.Decls), name, p, x, currentPkgPath)) || fdeclsHit(4, file, $i, k, recv, name, p, x, currentPkgPath))
+//@   loop 7 invariant forall k TestOnlyKind, recv string, name string, p token.Pos, x string :: poHasP(packageonly, k, recv, name, p, x) <==> ((k == TestOnlyOnType && recv == "" && filesHit(4, $seq1, $i1, name, p, x, currentPkgPath)) || ffilesHit(4, $seq1, $i1, k, recv, name, p, x, currentPkgPath) || (k == TestOnlyOnType && recv == "" && declsHit(4, file, len(file.Decls), name, p, x, currentPkgPath)) || fdeclsHit(4, file, $i6, k, recv, name, p, x, currentPkgPath) || (k == kind && recv == receiverType && name == funcName && p == pos && docHit(4, funcDecl.Doc, $i, x, currentPkgPath)))
